@@ -61,6 +61,22 @@ func main() {
 		os.Exit(cmdExplain(os.Args[2:]))
 	case "sweep":
 		os.Exit(cmdSweep(os.Args[2:]))
+	case "helpers":
+		// list the functions analysed as in-line helpers (no rule anchors on them)
+		dir := "/repo"
+		if len(os.Args) > 2 {
+			dir = os.Args[2]
+		}
+		p, err := Load(dir, false, "")
+		if err != nil {
+			fmt.Fprintln(os.Stderr, err)
+			os.Exit(2)
+		}
+		for _, fn := range p.Fns {
+			if p.isPlainHelper(fn) {
+				fmt.Printf("%s (%d call sites)\n", fname(fn), len(p.callers[fn]))
+			}
+		}
 	case "list":
 		var ids []string
 		for id := range props {
